@@ -228,7 +228,18 @@ def make_param(spec: dict, dtype_override: torch.dtype | None = None) -> torch.T
     shape = tuple(spec["shape"])
     t = torch.randn(shape, generator=g, dtype=torch.float64) * float(spec.get("init_scale", 1.0))
     dt = dtype_override or DTYPES[spec["dtype"]]
-    return t.to(dt)
+    return apply_layout(t.to(dt), spec.get("perm"))
+
+
+def apply_layout(t: torch.Tensor, perm: list[int] | None) -> torch.Tensor:
+    """Same logical tensor, memory laid out in the order of the dimension permutation `perm` (e.g. channels_last is
+    [0, 2, 3, 1]): a dense, non-overlapping, non-contiguous tensor."""
+    if not perm or t.dim() < 2:
+        return t
+    inv = [0] * len(perm)
+    for i, d in enumerate(perm):
+        inv[d] = i
+    return t.permute(perm).contiguous().permute(inv)
 
 
 def make_grad(shape: tuple[int, ...], dtype: torch.dtype, seed: int, kind: str, scale: float = 1.0) -> torch.Tensor:
